@@ -124,6 +124,14 @@ class RepoInterp:
             vals = {str(canon(p.value)) for p in rets}
             if len(vals) == 1 and not others:
                 return rets[0].value
+            # a procedure (no value): it either falls off its end or raises, as decided by the configuration
+            falls = [p for p in paths if p.kind == "fall"]
+            raises = [p for p in paths if p.kind == "raise"]
+            if not rets and len(paths) == 1 and falls:
+                return None
+            if not rets and len(paths) == 1 and raises:
+                from .terms import InlinedRaise
+                raise InlinedRaise(str(raises[0].value))
             raise Unsupported(f"helper {fi.qname} has {len(paths)} paths")
         return paths
 
